@@ -142,7 +142,8 @@ Definition set_limit (s : lst) (id : nat) (n : Z) : lst :=
     (acceptq s) (accepting s) (l_closed s) (refs s).
 
 Inductive lop :=
-| LArrive (r : Z) (p : list Z) | LAccept | LRead (id : nat) (k : Z) | LConnClose (id : nat) | LClose | LSetLimit (id : nat) (n : Z).
+| LArrive (r : Z) (p : list Z) | LAccept | LRead (id : nat) (k : Z) | LConnClose (id : nat) | LClose | LSetLimit (id : nat) (n : Z)
+| LWrite (id : nat).   (* Conn.Write: whatever becomes of the datagram, the listener's state is not touched *)
 
 (* observation after every operation ends with the socket state (1 = closed) *)
 Definition l_step (s : lst) (o : lop) : lst * zs :=
@@ -159,6 +160,7 @@ Definition l_step (s : lst) (o : lop) : lst * zs :=
   | LConnClose id => let s' := conn_close s id in (s', [b2z (sock_closed s')])
   | LClose => let s' := listener_close s in (s', [b2z (sock_closed s')])
   | LSetLimit id n => let s' := set_limit s id n in (s', [b2z (sock_closed s')])
+  | LWrite _ => (s, [b2z (sock_closed s)])
   end.
 
 Fixpoint l_run (s : lst) (h : list lop) : list zs :=
@@ -176,6 +178,7 @@ Definition dec_lop (o : zs) : lop :=
   | 3 :: id :: k :: _ => LRead (Z.to_nat id) k
   | 4 :: id :: _ => LConnClose (Z.to_nat id)
   | 6 :: id :: n :: _ => LSetLimit (Z.to_nat id) n
+  | 7 :: id :: _ => LWrite (Z.to_nat id)
   | _ => LClose
   end.
 
